@@ -371,7 +371,25 @@ Theorem process_scalar_spec s nmax : 0 < nmax ->
 Proof.
   intro Hn. unfold process_scalar. split; intro H.
   - destruct (s <? 0) eqn:E.
-    + replace (s + nmax >=? nmax) with false by lia. rewrite <- (Z.mod_add s 1 nmax) by lia. rewrite Z.mod_small by lia. do 2 f_equal; lia.
-    + replace (s >=? nmax) with false by lia. rewrite Z.mod_small by lia. reflexivity.
-  - replace (s <? 0) with false by lia. replace (s >=? nmax) with true by lia. reflexivity.
+    + replace (s + nmax <? 0) with false by lia. replace (s + nmax >=? nmax) with false by lia. cbn [orb].
+      rewrite <- (Z.mod_add s 1 nmax) by lia. rewrite Z.mod_small by lia. do 2 f_equal; lia.
+    + rewrite E. replace (s >=? nmax) with false by lia. cbn [orb]. rewrite Z.mod_small by lia. reflexivity.
+  - assert (E : (s <? 0) = false) by lia. rewrite !E. replace (s >=? nmax) with true by lia. reflexivity.
+Qed.
+(** a scalar outside [-n, n) on either side is refused (the lower side was defect D33) *)
+Theorem process_scalar_refuses s nmax : 0 <= nmax -> (s < - nmax \/ nmax <= s) -> process_scalar s nmax = None.
+Proof.
+  intros Hn H. unfold process_scalar. destruct (s <? 0) eqn:E.
+  - destruct H as [H|H]; [|lia]. replace (s + nmax <? 0) with true by lia. reflexivity.
+  - rewrite E. replace (s >=? nmax) with true by lia. reflexivity.
+Qed.
+(** every bound up to the length, however negative, is resolved as an array resolves it *)
+Theorem process_slice_array_semantics start stop nmax : 0 <= nmax ->
+  (forall a, start = Some a -> a <= nmax) -> (forall b, stop = Some b -> b <= nmax) ->
+  process_slice start stop nmax =
+  (match start with None => 0 | Some a => array_bound a nmax end, match stop with None => nmax | Some b => array_bound b nmax end).
+Proof.
+  intros Hn Ha Hb. unfold process_slice, array_bound.
+  destruct start as [a|], stop as [b|]; try specialize (Ha _ eq_refl); try specialize (Hb _ eq_refl);
+  repeat match goal with |- context [if ?c then _ else _] => destruct c eqn:? end; f_equal; lia.
 Qed.
